@@ -222,6 +222,9 @@ def classify(fn, case, exp, got):
             feats.append('minuszero')
         kinds = sorted({coarse_kind(a.strip()) for a in re.split(r',\s*(?![^()]*\))', case['a'].strip()[1:-1]) if a.strip()})
         return 'fmt:%s:%s:%s:%s:%s->%s' % (fam, '+'.join(groups), '+'.join(feats) or '-', '+'.join(kinds), e, g)
+    if fam == 'ctyped-fstring-conv' and fn.get('spec'):
+        # !s / !r / !a together with a format spec on a C-typed operand
+        return 'fmt:ctyped-conversion-with-spec:%s:%s->%s' % (fn['kind'], e, g)
     if fam.startswith('ctyped'):
         neg = 'neg' if re.search(r'\(-|, -', case['a']) else 'nonneg'
         return 'fmt:%s:%s:%s:%s:%s->%s' % (fam, fn['kind'], fn['cls'].split(':', 1)[1], neg, e, g)
